@@ -995,3 +995,24 @@ def rule_context_constructors(ctx, facts, rule):
         ok2 = ok2 and any(x.kind == "param" and x.key == 1 for x in ret)
     ctx.check(ok2, rule, "fastrace::collector::id::SpanContext::sampled", "-", "SpanContext::sampled(flag) sets exactly the sampled field to its argument and returns the context", "",
               "setter shape differs", extra="sampled")
+
+
+def rule_pairs_keep_orientation(ctx, facts, rule):
+    """C06-R7: wherever a (key, value) pair is converted (`|(k, v)| (k.into(), v.into())`), the key stays the key."""
+    prov = Prov(facts)
+    n = 0
+    for f in facts.fns.values():
+        if f.crate != "fastrace" or f.kind != "Closure" or EXCLUDE.search(f.path):
+            continue
+        if not re.fullmatch(r"\(alloc::borrow::Cow<'\w*, str>, alloc::borrow::Cow<'\w*, str>\)", f.locals[0]):
+            continue
+        if f.arg_count < 2 or not f.locals[2].startswith("("):
+            continue
+        n += 1
+        k = data_origins(prov.of_local(f, 0, (".0",)))
+        v = data_origins(prov.of_local(f, 0, (".1",)))
+        okk = bool(k) and all(x.kind == "param" and x.key == 2 and x.path[:1] == (".0",) for x in k if x.kind in ("param", "upvar"))
+        okv = bool(v) and all(x.kind == "param" and x.key == 2 and x.path[:1] == (".1",) for x in v if x.kind in ("param", "upvar"))
+        ctx.check(okk and okv, rule, f.path, f.span, "the pair conversion keeps key and value in place", "key %s value %s" % (origin_strs(k, 2), origin_strs(v, 2)),
+                  "key origins %s, value origins %s" % (origin_strs(k), origin_strs(v)), extra="pair")
+    ctx.floor(rule, "fastrace", n, 4, "(key, value) conversion closures")
